@@ -7,6 +7,7 @@ package main
 import (
 	"fmt"
 	"math/big"
+	"time"
 
 	"github.com/db47h/decimal"
 )
@@ -178,7 +179,17 @@ type judge int
 const (
 	judgeValue judge = iota // C01
 	judgeAcc                // C02
+	judgeAttr               // C09: only the receiver's precision and rounding mode after the call
 )
+
+// attrMsg: the receiver must have precision prec (the caller passes the documented
+// effective precision when the receiver's was 0) and keep its rounding mode.
+func attrMsg(o Obs, prec uint32, mode uint8) string {
+	if o.Prec != prec || o.Mode != mode {
+		return fmt.Sprintf("receiver attributes after the call: precision %d mode %s, want precision %d mode %s (%s)", o.Prec, modeName(o.Mode), prec, modeName(mode), o)
+	}
+	return ""
+}
 
 // binCase runs one finite/finite (or special) binary case and judges it.
 func binCase(c *Ctx, j judge, op int, xo, yo *Opnd, x, y *Dec, prec uint32, mode uint8, exp RRes, ex *exactRes) {
@@ -212,6 +223,10 @@ func binCase(c *Ctx, j judge, op int, xo, yo *Opnd, x, y *Dec, prec uint32, mode
 		c.NonTrivial()
 	}
 	switch j {
+	case judgeAttr:
+		if msg := attrMsg(o, prec, mode); msg != "" {
+			c.Fail(key(), msg)
+		}
 	case judgeValue:
 		if !ok {
 			c.FailT(key(), cmpValue(o, exp), gt)
@@ -334,6 +349,10 @@ func unaryCase(c *Ctx, j judge, op int, xo *Opnd, prec uint32, mode uint8) {
 	}
 	ok := matchValue(o, exp)
 	switch j {
+	case judgeAttr:
+		if msg := attrMsg(o, prec, mode); msg != "" {
+			c.Fail(key(), msg)
+		}
 	case judgeValue:
 		if !ok {
 			c.Fail(key(), cmpValue(o, exp))
@@ -676,6 +695,48 @@ func arithLayers(j judge, tier string) []Layer {
 								x, y := xo.Build(), yo.Build()
 								binSweep(c, j, []int{pr.op}, xo, yo, x, y, []uint32{1, 2, 3, 7, 8}, M6)
 							}
+						}
+					}
+				}
+			},
+		})
+	}
+	// L9: additive operands that are very far apart (the alignment shift is
+	// materialised by uadd/usub: a gap of g digits costs g/19 words)
+	{
+		var gaps []int64
+		hi := 16
+		if tier == "thorough" {
+			hi = 18
+		}
+		for k := 12; k <= hi; k++ {
+			for _, d := range []int64{0, 1} {
+				gaps = append(gaps, int64(1)<<uint(k)+d, DW<<uint(k)+d)
+			}
+		}
+		gaps = append(gaps, 20000, 100000, 1000000)
+		bigs := []string{"1", "9999999999999999999", "1234567890123456789012345", "99999999999999999999999999999999999999"}
+		smalls := []string{"1", "5", "9999999999999999999", "50000000000000000000000001"}
+		layers = append(layers, Layer{
+			Name:      "L9-far-apart",
+			Units:     len(gaps),
+			UnitLimit: 600 * time.Second,
+			Bounds:    fmt.Sprintf("Add/Sub of operands whose last digits are %d different distances up to %d digits apart (2^k, 19·2^k, +1; 20000, 10^5, 10^6): 4 large × 4 small operands × ± × both operand orders, prec {1, digits(x), digits(x)+1, 19, 34, 38, 57}, 6 modes", len(gaps), gaps[len(gaps)-4]),
+			Run: func(c *Ctx, u int) {
+				g := gaps[u]
+				for _, bs := range bigs {
+					for _, ss := range smalls {
+						if c.Done() {
+							return
+						}
+						precs := []uint32{1, uint32(len(bs)), uint32(len(bs)) + 1, 19, 34, 38, 57}
+						for _, ny := range []bool{false, true} {
+							xo := mkCoef(false, mustInt(bs), 0, 60, 0)
+							// last digit of y lies g digits below the last digit of x
+							yo := mkCoef(ny, mustInt(ss), -g, 60, 0)
+							x, y := xo.Build(), yo.Build()
+							binSweep(c, j, []int{opAdd, opSub}, xo, yo, x, y, precs, M6)
+							binSweep(c, j, []int{opAdd, opSub}, yo, xo, y, x, precs, M6)
 						}
 					}
 				}
